@@ -22,7 +22,9 @@ def tick():
     count[0] += 1
     if count[0] == N:
         os._exit(9)
-_mk, _rm, _sl, _open = os.makedirs, os.remove, os.symlink, builtins.open
+_mk, _rm, _sl, _open, _rp = os.makedirs, os.remove, os.symlink, builtins.open, os.replace
+def replace(*a, **k): r = _rp(*a, **k); tick(); return r
+os.replace = replace
 def makedirs(*a, **k): r = _mk(*a, **k); tick(); return r
 def remove(*a, **k): r = _rm(*a, **k); tick(); return r
 def symlink(*a, **k): r = _sl(*a, **k); tick(); return r
